@@ -21,9 +21,21 @@ CLAIMED = {
     text="Deterministic simulation of all live DB handles (the original read through a simulator-owned line stream, plus every copy / reverse view / filter / choice / facet collection derived during the run) receiving inserts and derivations in a seeded order; after every step every live handle is compared, through the public query methods, with a reference relation, and the same runs are repeated under three PYTHONHASHSEED values and must produce identical event logs. Two documented open findings (insert stores the characters of the name; sharing derivations alias sets) are recognised only by their exact signature; anything else is a violation. Seeded sampling of collections and histories.",
     ref="5.C20", note="Trusted: the 60-line reference database (two dicts of sets, snapshot semantics for derivations) and its object-level aliasing twin used only to recognise the sharing finding; hand-derived facet function; package names distinct and free of ', ' / ': '.",
     technique="deterministic simulation: seeded multi-handle operation histories vs. reference relation, hash-seed sweep"),
+ "C05": dict(level="exploration",
+    text="Deterministic simulation of edit histories (set / add / delete / read, incl. assignments that must be refused) issued through several paragraph handles obtained at different times (held objects, fresh list(file)[i], configured views) with handle drops and garbage collections as schedule steps; after every mutation the dump must equal untouched-prefix + X + untouched-suffix computed from the generator's own segment list, X must be exactly one field by an independent mini-parser with the original spelling and the assigned value, and a fresh parse must show the model's paragraphs. Seeded sampling of documents and histories.",
+    ref="5.C05", note="Trusted: the document generator's segment bookkeeping, the 30-line field mini-parser and value normaliser; the SUT parser is used for the fresh-parse comparison (its losslessness is C01, not claimed here).",
+    technique="deterministic simulation: seeded multi-handle edit histories vs. byte-exact segment model"),
+ "C10": dict(level="exploration",
+    text="Deterministic simulation of structural edit histories on documents with unique or duplicated field names: order_first/last/before/after with plain and (name, i) keys, sort_fields, indexed/un-indexed set and delete, file.insert/append of new paragraphs, operations that must fail and change nothing, handle drops and gc steps. Exact dump equality against a document-order model for in-paragraph operations; for paragraph insertion the file's element sequence must be the model's paragraphs with only blank lines/comments between them, no free comment lost, and no merge; fresh parse equals the model; (name, i) reads the i-th occurrence in document order. Seeded sampling.",
+    ref="5.C10", note="Trusted: the document-order model (lists of byte-exact segments); the side of a free comment on insertion is unspecified and not constrained; out-of-range occurrence index may raise KeyError or IndexError.",
+    technique="deterministic simulation: seeded structural-edit histories vs. document-order list model"),
+ "C09": dict(level="exploration",
+    text="Deterministic simulation of operation histories on 1..4 live Deb822 handles (original, copies, objects re-parsed from a dump): assignments, deletions, pops, lookups, order_first/last/before/after, sort_fields with default and custom keys, copy, dump->parse, handle drops and gc.collect() as explicit schedule steps, including operations that must fail (KeyError / ValueError) and then change nothing. Every live handle is compared with an ordered list model (lower-case name, first spelling, value) after every step. Seeded sampling of histories.",
+    ref="5.C09", note="Trusted: the list model (40 lines); values restricted to text that validate_input accepts and that survives dump->parse unchanged.",
+    technique="deterministic simulation: seeded multi-handle operation histories with failing operations vs. ordered list model"),
 }
 PENDING = {k: "Claimed in DESIGN.md section 5 (simulation target); its check is not built yet in this revision - listed here only until it is." for k in
-           "C05 C07 C09 C10 C11 C15".split()}
+           "C07 C11 C15".split()}
 NA = {
  "C01": "Pure function of the line list (quantifier: inputs only): no state, seam, fault or order of operations for a simulator to own; it is an enumeration / property-based-testing target (DESIGN.md section 2).",
  "C02": "Pure function of (text, input form, armor flag); the 'configurations' are argument shapes, not schedules or faults; input objects are iterated once, sequentially (DESIGN.md section 2).",
